@@ -249,7 +249,7 @@ def suite_parts(ctx, res, n):
 
     rng = ctx.rng
     for k in range(n):
-        parts = ReusableParts(view_box=Rect(0, 0, rng.choice([100, 128, 24]), rng.choice([100, 128])), reuse_tolerance=rng.choice([0.1, 0.05, 1.0]))
+        parts = ReusableParts(view_box=Rect(0, 0, rng.choice([100, 128, 24]), rng.choice([100, 128])), reuse_tolerance=rng.choice([0.1, 0.05, 1.0, 0.0125, 0.0625, 0.0375, 0.00025, 1 / 3, 0.1 + 1e-9]))   # any float a user may give
         for _ in range(rng.randint(0, 5)):
             shp = rng.choice(fontgen.SHAPES)(rng, 40, 40, 15)
             try:
